@@ -8,7 +8,7 @@ python3 - "$d/include/quill/$file" "$old" "$new" <<'PY'
 import sys,re
 p,old,new=sys.argv[1:4]; s=open(p).read(); n=len(re.findall(old,s))
 if n!=1: print('MUTATION pattern matches %d times'%n); sys.exit(3)
-open(p,'w').write(re.sub(old,lambda m:new,s))
+new=new.replace('\\n','\n'); open(p,'w').write(re.sub(old,lambda m:new,s))
 PY
 VERIF_REPO=$d python3 /verif/engine/driver.py $pid --no-evidence "$@" 2>&1 | grep -E "^\[|VIOLATION|KNOWN|tier=" | cut -c1-300
 rm -rf $d
